@@ -1161,7 +1161,11 @@ func vfSenderCase(t *testing.T, s *vfutil.Session, r *vfutil.Rand, c *vfSCase, t
 				tk2 := vfdoubles.ReplayWith(pre2, 0, true)
 				sp3, log3, ok3 := vfRunResumed(t, c, tk2, c.start, stream, boundary)
 				if !ok3 {
+					// the second life started from a usable position, and positions only move forward
+					// (C07): a third start without one has lost it -- a full resynchronisation where
+					// the property promises a resume at or after the point the previous run reached
 					s.Count("third_life_none")
+					s.Violate("C02:position-lost", fmt.Sprintf("two crashes (after %d, then %d requests): the second life resumed at %d in db %d, the next start finds no usable position (reads %d in db %d)", sp.k, k2, sp2.Offset, sp2.DbId, sp3.Offset, sp3.DbId), replay(map[string]interface{}{"k": sp.k, "offset": sp2.Offset, "db": sp2.DbId, "k2": k2, "offset3": sp3.Offset, "db3": sp3.DbId}))
 					continue
 				}
 				s.Count("third_lives")
@@ -1169,8 +1173,9 @@ func vfSenderCase(t *testing.T, s *vfutil.Session, r *vfutil.Rand, c *vfSCase, t
 				app2k, _, _ := vfAppliedOf(c, log2[:k2])
 				app3, _, _ := vfAppliedOf(c, log3)
 				if sp3.Offset < sp2.Offset {
+					// C07's statement; what it means for C02 (a repeat, a violation in transactional
+					// mode only) is judged below all the same
 					s.Violate("C07:restart-lowers-position", fmt.Sprintf("second crash after %d requests of the resumed run: the next start reads %d, the resumed run had started at %d", k2, sp3.Offset, sp2.Offset), rp3)
-					continue
 				}
 				first3 := 0
 				for first3 < len(exp) && exp[first3].end <= sp3.Offset {
